@@ -28,8 +28,9 @@ type Mut struct {
 
 type Case struct {
 	Powers  []int64 `json:"powers"`
-	Heights int     `json:"heights"` // honest heights committed before the block under test
-	ValTx   int     `json:"valtx"`   // >0: a validator-set change is committed at height ValTx (if < Heights)
+	Heights int     `json:"heights"`          // honest heights committed before the block under test
+	ValTx   int     `json:"valtx"`            // >0: a validator-set change is committed at height ValTx (if < Heights)
+	ValUpd  int64   `json:"valupd,omitempty"` // >0: the same block also changes the power of validator 0 to this value
 	NTxs    int     `json:"ntxs"`
 	Muts    []Mut   `json:"muts"` // applied together (1 = single mutation, 2 = double)
 }
@@ -65,6 +66,9 @@ func genCase(t *rapid.T) Case {
 	c := Case{Powers: ps, Heights: rapid.IntRange(0, 3).Draw(t, "heights"), NTxs: rapid.IntRange(0, 3).Draw(t, "ntxs")}
 	if c.Heights >= 2 && rapid.Bool().Draw(t, "valchange") {
 		c.ValTx = rapid.IntRange(1, c.Heights-1).Draw(t, "valtxHeight")
+		if rapid.Bool().Draw(t, "valupd") {
+			c.ValUpd = rapid.Int64Range(1, 9).Draw(t, "valupdPower")
+		}
 	}
 	all := append(append(append([]string{}, headerMuts...), commitMuts...), unjudgedMuts...)
 	nm := rapid.SampledFrom([]int{0, 1, 1, 1, 1, 1, 2}).Draw(t, "nmuts")
@@ -118,6 +122,10 @@ func runCase(c Case, x *h.Ctx) {
 		if c.ValTx == hgt {
 			for _, n := range net.Honest() {
 				n.Pool.Push(append(append([]byte{}, types.AdminTag...), []byte(fmt.Sprintf("valchange:%d:%d", spare, 2))...))
+				if c.ValUpd > 0 {
+					// an addition and a power update in one block (one EndBlock)
+					n.Pool.Push(append(append([]byte{}, types.AdminTag...), []byte(fmt.Sprintf("valchange:%d:%d", 0, c.ValUpd))...))
+				}
 			}
 		}
 		if !d.RunFair(int64(hgt), 4000) {
@@ -314,7 +322,7 @@ func satisfiesListedConditions(b *types.Block, st *sm.State, lastVals *types.Val
 			tally += val.VotingPower
 		}
 	}
-	return 3*tally > 2*lastVals.TotalVotingPower()
+	return 3*tally > 2*sumPower(lastVals)
 }
 
 func resign(id int, v *types.Vote) {
@@ -457,7 +465,7 @@ func applyMut(b *types.Block, m Mut, st *sm.State, lastVals *types.ValidatorSet,
 				tally += v.VotingPower
 			}
 		}
-		for k := 0; k < len(ps) && 3*tally > 2*lastVals.TotalVotingPower(); k++ {
+		for k := 0; k < len(ps) && 3*tally > 2*sumPower(lastVals); k++ {
 			i := (m.P + k) % len(ps)
 			if ps[i] != nil {
 				_, v := lastVals.GetByIndex(i)
